@@ -72,6 +72,13 @@ PROVED (model, all inputs):
   schedule exists after which both sends have returned and one event is still queued, unprocessed until
   the next send).
 
+OPEN (F70): the side condition "the bound `maxIterations` is not reached" of `fifo_exactly_once_clean` /
+`fifo_exactly_once_async_clean` is about the TOTAL of a busy period, not about a chain: a `send_events` burst of
+more than `maxIterations` events each of which raises ONE event reaches it, and RAISED events — never external
+ones — are discarded although every causal chain has length 1. Witnesses on both engine models:
+`C13.burst_of_short_chains_is_cut_sync` / `_async` (`Xsm/Properties/C13.lean`); monitor: rule
+`short-chains-cut-by-burst` of `c14.c04_monitor`.
+
 NOT exhibited by the model, VALIDATED only (harness `xsmverif/c14.py::c04_ordering`, every run): sends
 that arrive while a macrostep is in flight (async producer tasks against sleeping coroutine actions) —
 the model observes at quiescent points, there is no suspension inside a macrostep (the defect F42 — the
